@@ -146,6 +146,13 @@ def run(ctx):
         c13.run(pr)
         ctx.oblige("C01|lossy-semantics", not pr.failed,
                    "a documented lossy decoder alters or drops values it should deliver whole: %s" % "; ".join("%s: %s" % (k, m[:160]) for k, m in pr.failed[:2]), cfg=cfg)
+        # "unknown algorithms and attestation formats filtered": the filtering decoders filter exactly as documented (a known entry is
+        # kept in order, an unknown one only skipped / remembered by the flag) -- C14's rules are a necessary condition of C01
+        from . import c14
+        pr14 = Probe(facts={cfg: F})
+        c14.run(pr14)
+        ctx.oblige("C01|list-decoders", not pr14.failed,
+                   "a filtering list decoder alters, reorders or drops what it should deliver: %s" % "; ".join("%s: %s" % (k, m[:160]) for k, m in pr14.failed[:2]), cfg=cfg)
         # "whose members respect the declared size limits": the capacities and widths a well-formed request may use are the
         # specification's (C12's limits table is a necessary condition: a smaller capacity rejects well-formed requests)
         from . import c12
